@@ -21,10 +21,10 @@ func propC04() *Property {
 			"crypto/tls with a nil config verifies the peer against the system roots",
 		},
 		Rules: []Rule{
-			{ID: "C04.R1", Title: "single network writer (jtp.Get), no other client library", Floor: 20, Run: c04R1},
-			{ID: "C04.R2", Title: "request template and constant Accept values", Floor: 3, Run: c04R2},
-			{ID: "C04.R3", Title: "TLS with default verification to the URL's own host and port, https only", Floor: 4, Run: c04R3},
-			{ID: "C04.R4", Title: "URL constructor discipline for everything that reaches jtp.Get", Floor: 4, Run: c04R4},
+			{ID: "C04.R1", Title: "single network writer (jtp.Get), no other client library", Floor: 81, Run: c04R1},
+			{ID: "C04.R2", Title: "request template and constant Accept values", Floor: 1, Run: c04R2},
+			{ID: "C04.R3", Title: "TLS with default verification to the URL's own host and port, https only", Floor: 2, Run: c04R3},
+			{ID: "C04.R4", Title: "URL constructor discipline for everything that reaches jtp.Get", Floor: 3, Run: c04R4},
 		},
 	}
 }
